@@ -5,7 +5,7 @@
 From Coq Require Import NArith ZArith List Bool.
 From KT Require Import Gen.Generated Gen.Alphabet Model.Kmer Model.Show Model.Flt Model.Ops Model.Rows.
 From KT Require Import Proof.RevComp Proof.PosMap Proof.Oligo Proof.Sched Proof.SchedTrace Proof.Batch Proof.Merge Proof.MinConc Proof.MinSpec.
-From KT Require Proof.CountSched Proof.CountTrace.
+From KT Require Proof.CountSched Proof.CountTrace Proof.ItemsSched Proof.ItemsTrace.
 Import ListNotations.
 Open Scope N_scope.
 
@@ -146,3 +146,15 @@ Definition m2s_lines (txt : nat -> N -> list N) (runs : list N -> list (N * nat 
                  (NSort.sort (nodup N.eq_dec (map fst es)))).
 Definition m_m2s (w m : nat) (recs : list (list N)) : list N := m2s_lines kmer_text (rec_runs w m) m recs.
 Definition s_m2s (w m : nat) (recs : list (list N)) : list N := m2s_lines s_dec (rec_runs_spec w m) m recs.
+
+(* minimiser outputs under a schedule: the trace of TAKE / PUSH (m2s: one per run) or WRITE (s2m: one per record)
+   steps and the resulting lines (canonical form: order of lines and of list entries is not specified) *)
+Definition show_iev (e : nat * ItemsTrace.iev) : list N :=
+  dec_nat (fst e) ++ colon ++
+  match snd e with ItemsTrace.ITake n => 116 :: dec_nat n | ItemsTrace.INone => [116; 45] | ItemsTrace.IPush => [112] end.
+Definition m_msched (s2m : bool) (w m W : nat) (sched : list nat) (recs : list (list N)) : list N :=
+  let items := map (fun s => repeat tt (if s2m then 1%nat else length (rec_runs w m s))) recs in
+  let '(tr, st) := ItemsTrace.itrace unit items W sched in
+  if ItemsTrace.all_exited unit st
+  then join comma (map show_iev tr) ++ [124] ++ (if s2m then m_s2m w m recs else m_m2s w m recs)
+  else [83; 72; 79; 82; 84].
